@@ -30,7 +30,7 @@ def run_tlexport(packets, keylog_txt=None, args=(), capture_kw=None, legacy=Fals
         inp = os.path.join(d, "in.pcap" if legacy else "in.pcapng")
         outp = os.path.join(d, "out.pcapng")
         if legacy:
-            pcapng.write_legacy_pcap(inp, packets)
+            pcapng.write_legacy_pcap(inp, packets, **(legacy if isinstance(legacy, dict) else {}))
         else:
             pcapng.write_capture(inp, packets, **(capture_kw or {}))
         cmd = [PY, "-m", "tlexport.main", "-i", inp, "-o", outp]
